@@ -67,6 +67,8 @@ def check_formula(E, name, f, want_pairs, check_fractions=True):
     m = sum(c * oracle_mass(a) for c, a in want_pairs)
     q = sum(c * getattr(a, 'charge', 0) for c, a in want_pairs)
     E.eq(name + '.mass', f.mass, m)
+    from periodictable.constants import avogadro_number
+    E.eq(name + '.molecular_mass_grams', f.molecular_mass * avogadro_number, m)
     E.eq(name + '.charge', f.charge, q)
     if check_fractions:
         if m > 0:
